@@ -75,6 +75,10 @@ def anchors(run):
     tl = src.fn('transpile_lit', impl=r'PyScriptGenerator')
     if not re.search(r'ValueObj::Str\((\w+)\)\s*=>\s*format!\("\\"\{\}\\"",\s*Self::escape_str\(\1\)\)', tl.text):
         raise Undecided("PyScriptGenerator::transpile_lit no longer writes a Str literal as a quotation mark + escape_str(value) + a quotation mark")
+    # ... and no other arm decides how a Str literal is written
+    m = re.search(r'let text = match &lit\.value \{(.*?)\n        \};', tl.text, re.S)
+    if not m or len(re.findall(r'ValueObj::Str\b', m.group(1))) != 1:
+        raise Undecided("PyScriptGenerator::transpile_lit: the match that chooses the text of a literal has more than one arm for Str (or changed shape)")
     d = tl.describe()
     d["unit_label"] = "PyScriptGenerator::transpile_lit (textual anchor + BOUNDED differential run only)"
     run.functions.append(d)
